@@ -49,7 +49,7 @@ META = {
                   "x86-64 masked files: semantics decided in C10 (ascon_x{2,3,4}_permute, 33 masked-word functions); ABI/footprint by the same executor",
                   "AVR5 masked files ascon_x2_permute / ascon_x3_permute: one round extracted at every start round 0..11 (loop back edge not taken) proved equal to the specification round on the "
                   "unmasked value for all shares and all preserved randomness, plus the natural two-round run from round 10 as composition witness; ABI/footprint for start rounds 0..11"],
-    "bounds": "start round concrete 0..12 (quick: {0, 6, 11, 12} for the 32-bit data paths), all 2^320 states symbolic; the executor follows the single control path of each start round "
+    "bounds": "start round concrete 0..12 (quick: {0, 1, 5, 6, 9, 11, 12} for the 32-bit data paths), all 2^320 states symbolic; the executor follows the single control path of each start round "
               "and refuses data-dependent flags/addresses, ABI violations and out-of-footprint accesses",
     "outside": "instruction encodings / assembler behaviour (the executor works on assembly text); AVR masked x2/x3: the full 12-round run is not one query (cost doubles per round) - "
                "claimed is every single round, two consecutive rounds, and the concrete iteration count seen by the executor; that consecutive iterations compose in general rests on the loop body being the same code; "
@@ -152,7 +152,7 @@ def queries(tier):
     for path, module, layout, key, wide in FILES:
         if load(module) is None:
             continue
-        rounds = range(13) if (tier == "thorough" or wide) else [0, 6, 11, 12]
+        rounds = range(13) if (tier == "thorough" or wide) else [0, 1, 5, 6, 9, 11, 12]   # quick: entry points of the round dispatch, not only the library's own 0/4/6
         if module == "avr5":
             # the AVR loop is a do-while on an 8-bit round-constant register: first_round >= 12 is outside the documented
             # domain (0..11) and does not act as the identity there (256-n rounds); the property quantifies over 0..11
